@@ -1,5 +1,5 @@
 (* Proofs about Model/Algebra.v. *)
-From Coq Require Import List ZArith QArith Qabs Bool Arith Lia Permutation Setoid.
+From Coq Require Import List ZArith QArith Qabs Bool Arith Lia Permutation Setoid ArithRing.
 From GV Require Import Lib.Tree Lib.QSumM Model.Mixing Model.Algebra Proofs.MixingP.
 Import ListNotations.
 Local Open Scope Q_scope.
@@ -1127,3 +1127,266 @@ Qed.
 
 Theorem check_jddb_iff eps g obs : check_jddb eps g obs = true <-> dict_close eps obs (spec_jdd g).
 Proof. apply dict_closeb_spec. Qed.
+
+(* ====================================================================== network identity (handshake) *)
+Fixpoint nsum (l : list nat) : nat := match l with [] => 0%nat | x :: t => (x + nsum t)%nat end.
+
+Lemma nsum_map_plus {A} (f g : A -> nat) l :
+  nsum (map (fun x => (f x + g x)%nat) l) = (nsum (map f l) + nsum (map g l))%nat.
+Proof. induction l as [|x l IH]; cbn [map nsum]; [reflexivity|]. rewrite IH. lia. Qed.
+
+Lemma nsum_map_ext {A} (f g : A -> nat) l : (forall x, In x l -> f x = g x) -> nsum (map f l) = nsum (map g l).
+Proof.
+  induction l as [|x l IH]; intros H; cbn [map nsum]; [reflexivity|].
+  rewrite H by (left; reflexivity). rewrite IH; [reflexivity|]. intros y Hy. apply H. right. exact Hy.
+Qed.
+
+Lemma nsum_pick_gen (f : nat -> nat) u n : forall s,
+  nsum (map (fun v => ((if Nat.eqb u v then 1 else 0) * f v)%nat) (seq s n))
+  = if (Nat.leb s u && Nat.ltb u (s + n))%bool then f u else 0%nat.
+Proof.
+  induction n as [|n IH]; intros s; cbn [seq map nsum].
+  - destruct (Nat.leb_spec s u); destruct (Nat.ltb_spec u (s + 0)); cbn; try reflexivity; lia.
+  - rewrite IH. destruct (Nat.eqb_spec u s) as [->|Hne].
+    + destruct (Nat.leb_spec (S s) s); [lia|]. cbn [andb].
+      destruct (Nat.leb_spec s s); [|lia]. destruct (Nat.ltb_spec s (s + S n)); [|lia]. cbn. lia.
+    + destruct (Nat.leb_spec (S s) u); destruct (Nat.leb_spec s u); destruct (Nat.ltb_spec u (S s + n));
+        destruct (Nat.ltb_spec u (s + S n)); cbn; try reflexivity; lia.
+Qed.
+
+Lemma nsum_pick (f : nat -> nat) u n : (u < n)%nat ->
+  nsum (map (fun v => ((if Nat.eqb u v then 1 else 0) * f v)%nat) (seq 0 n)) = f u.
+Proof.
+  intros H. rewrite nsum_pick_gen. destruct (Nat.leb_spec 0 u); [|lia]. destruct (Nat.ltb_spec u (0 + n)); [reflexivity|lia].
+Qed.
+
+Lemma deg_cons e es v :
+  deg (e :: es) v = ((if Nat.eqb (eu e) v then 1 else 0) + (if Nat.eqb (ev e) v then 1 else 0) + deg es v)%nat.
+Proof. reflexivity. Qed.
+
+(* double counting: ends with a given own class, grouped by vertex *)
+Lemma own_count_by_vertex exf es a n :
+  Forall (fun e => (eu e < n)%nat /\ (ev e < n)%nat) es ->
+  own_count exf es a = nsum (map (fun v => (b2n (keqb (exf v) a) * deg es v)%nat) (seq 0 n)).
+Proof.
+  induction 1 as [|e es [Hu Hv] _ IH].
+  - cbn [own_count fold_right]. symmetry. rewrite (nsum_map_ext _ (fun _ => 0%nat)) by (intros; cbn; lia).
+    induction (seq 0 n); cbn; auto.
+  - rewrite own_count_cons, IH.
+    rewrite (nsum_map_ext (fun v => (b2n (keqb (exf v) a) * deg (e :: es) v)%nat)
+              (fun v => (((if Nat.eqb (eu e) v then 1 else 0) * b2n (keqb (exf v) a)
+                          + (if Nat.eqb (ev e) v then 1 else 0) * b2n (keqb (exf v) a))
+                         + b2n (keqb (exf v) a) * deg es v)%nat))
+      by (intros v _; rewrite deg_cons; ring).
+    rewrite nsum_map_plus, nsum_map_plus.
+    rewrite (nsum_pick (fun v => b2n (keqb (exf v) a)) (eu e) n Hu).
+    rewrite (nsum_pick (fun v => b2n (keqb (exf v) a)) (ev e) n Hv). lia.
+Qed.
+
+Lemma handshake es n :
+  Forall (fun e => (eu e < n)%nat /\ (ev e < n)%nat) es ->
+  (2 * length es)%nat = nsum (map (deg es) (seq 0 n)).
+Proof.
+  induction 1 as [|e es [Hu Hv] _ IH].
+  - symmetry. cbn [length]. rewrite (nsum_map_ext _ (fun _ => 0%nat)) by (intros; reflexivity).
+    induction (seq 0 n); cbn; auto.
+  - cbn [length].
+    rewrite (nsum_map_ext (deg (e :: es))
+              (fun v => (((if Nat.eqb (eu e) v then 1 else 0) * 1 + (if Nat.eqb (ev e) v then 1 else 0) * 1) + deg es v)%nat))
+      by (intros v _; rewrite deg_cons; lia).
+    rewrite nsum_map_plus, nsum_map_plus.
+    rewrite (nsum_pick (fun _ => 1%nat) (eu e) n Hu), (nsum_pick (fun _ => 1%nat) (ev e) n Hv). lia.
+Qed.
+
+Fixpoint zsum (l : list Z) : Z := match l with [] => 0%Z | x :: t => (x + zsum t)%Z end.
+
+Lemma zsum_fold l : zsum l = fold_right Z.add 0%Z l.
+Proof. induction l as [|x l IH]; cbn [zsum fold_right]; [reflexivity|]. rewrite IH. reflexivity. Qed.
+
+Lemma zsum_nsum {A} (f : A -> nat) l : Z.of_nat (nsum (map f l)) = zsum (map (fun x => Z.of_nat (f x)) l).
+Proof. induction l as [|x l IH]; cbn [map nsum zsum]; [reflexivity|]. rewrite Nat2Z.inj_add, IH. reflexivity. Qed.
+
+Lemma zsum_map_ext {A} (f g : A -> Z) l : (forall x, In x l -> f x = g x) -> zsum (map f l) = zsum (map g l).
+Proof.
+  induction l as [|x l IH]; intros H; cbn [map zsum]; [reflexivity|].
+  rewrite H by (left; reflexivity). rewrite IH; [reflexivity|]. intros y Hy. apply H. right. exact Hy.
+Qed.
+
+Lemma zsum_map_scale {A} (f : A -> Z) c l : zsum (map (fun x => (c * f x)%Z) l) = (c * zsum (map f l))%Z.
+Proof. induction l as [|x l IH]; cbn [map zsum]; [lia|]. rewrite IH. lia. Qed.
+
+(* sums over vertex indices = sums over the annotation list *)
+Lemma map_nth_seq {A} (l : list A) d : map (fun v => nth v l d) (seq 0 (length l)) = l.
+Proof.
+  induction l as [|x l IH]; [reflexivity|]. cbn [length seq map nth]. f_equal.
+  rewrite <- seq_shift, map_map. exact IH.
+Qed.
+
+Lemma zsum_by_list (F : key -> Z) (l : list key) :
+  zsum (map (fun v => F (nth v l [])) (seq 0 (length l))) = zsum (map F l).
+Proof.
+  transitivity (zsum (map F (map (fun v => nth v l []) (seq 0 (length l))))).
+  - rewrite map_map. reflexivity.
+  - rewrite map_nth_seq. reflexivity.
+Qed.
+
+Definition b2z (b : bool) : Z := if b then 1%Z else 0%Z.
+
+Lemma zsum_count (k : key) (l : list key) : zsum (map (fun x => b2z (keqb k x)) l) = Z.of_nat (length (filter (keqb k) l)).
+Proof.
+  induction l as [|x l IH]; [reflexivity|]. cbn [map zsum filter]. rewrite IH.
+  destruct (keqb k x); cbn [b2z length]; lia.
+Qed.
+
+Definition clean_for (g : net) (i t : nat) (c : Z) : Prop :=
+  (0 < c)%Z /\ forall v, (v < length (jds g))%nat -> Z.of_nat (tdeg g t v) = (c * knth i (jd_of g v))%Z.
+
+Section Network.
+  Variable g : net.
+  Variable T : nat.
+  Hypothesis HV : valid_net T g.
+  Variable i t : nat.
+  Hypothesis Hi : (i < T)%nat.
+  Variable c : Z.
+  Hypothesis HC : clean_for g i t c.
+  Let es := edges_of t (edges g).
+  Let n := length (jds g).
+
+  Lemma es_bounds : Forall (fun e => (eu e < n)%nat /\ (ev e < n)%nat) es.
+  Proof.
+    destruct HV as [_ H]. apply Forall_forall. intros e He. unfold es, edges_of in He. apply filter_In in He.
+    rewrite Forall_forall in H. apply H. apply He.
+  Qed.
+
+  Lemma two_E : Z.of_nat (2 * length es) = (c * col_sum g i)%Z.
+  Proof.
+    rewrite (handshake es n es_bounds), zsum_nsum.
+    rewrite (zsum_map_ext _ (fun v => (c * knth i (nth v (jds g) []))%Z)).
+    - rewrite zsum_map_scale. unfold n. rewrite (zsum_by_list (knth i) (jds g)).
+      unfold col_sum. rewrite zsum_fold. reflexivity.
+    - intros v Hv. apply in_seq in Hv. destruct HC as [_ H]. apply (H v). unfold n in Hv. lia.
+  Qed.
+
+  Lemma own_closed a : length a = T ->
+    Z.of_nat (own_count (exc g i) es a) = (c * (knth i a + 1) * Z.of_nat (vcount g (kinc i a)))%Z.
+  Proof.
+    intros Ha. rewrite (own_count_by_vertex (exc g i) es a n es_bounds), zsum_nsum.
+    rewrite (zsum_map_ext _ (fun v => (c * (knth i a + 1) * b2z (keqb (kinc i a) (nth v (jds g) [])))%Z)).
+    - rewrite zsum_map_scale. unfold n. rewrite (zsum_by_list (fun k => b2z (keqb (kinc i a) k)) (jds g)).
+      rewrite zsum_count. reflexivity.
+    - intros v Hv. apply in_seq in Hv. assert (Hvn : (v < length (jds g))%nat) by (unfold n in Hv; lia).
+      rewrite Nat2Z.inj_mul. destruct HC as [_ H]. unfold tdeg in H. fold es in H. rewrite (H v Hvn).
+      unfold exc, jd_of. set (k := nth v (jds g) []).
+      assert (Hk : length k = T) by (apply (jd_of_length T g v HV Hvn)).
+      destruct (keqb_spec (kdec i k) a) as [E|Hne].
+      + assert (E2 : kinc i a = k) by (rewrite <- E; apply kinc_kdec). rewrite E2, keqb_refl.
+        rewrite <- E, knth_kdec by lia. cbn [b2n b2z]. lia.
+      + destruct (keqb_spec (kinc i a) k) as [E|_]; [|cbn [b2n b2z]; lia].
+        exfalso. apply Hne. rewrite <- E. apply kdec_kinc.
+  Qed.
+
+  (* the row sum of the C13 matrix in closed form *)
+  Theorem network_rowsum cnt a : length a = T -> col_sum g i <> 0%Z ->
+    rowsum T (get_ejk g (count_edge_types cnt (edges g)) i t) a
+    == inject_Z (knth i a + 1) * nq (vcount g (kinc i a)) / inject_Z (col_sum g i).
+  Proof.
+    intros Ha Hcs. rewrite (st_rowsum g T HV cnt i t a). fold es.
+    unfold nq. rewrite two_E, (own_closed a Ha). rewrite !inject_Z_mult.
+    destruct HC as [Hc _]. field. split.
+    - intros E. apply Hcs. unfold Qeq in E. cbn in E. lia.
+    - intros E. unfold Qeq in E. cbn in E. lia.
+  Qed.
+End Network.
+
+Lemma mean_spec_wsum P i : mean_spec P i = wsum (kq i) P.
+Proof. reflexivity. Qed.
+
+Lemma wsum_const_list i c (l : list key) :
+  wsum (kq i) (map (fun k => (k, c)) l) == inject_Z (fold_right Z.add 0%Z (map (knth i) l)) * c.
+Proof.
+  induction l as [|k l IH]; [unfold wsum; cbn; ring|].
+  cbn [map fold_right]. rewrite wsum_cons, IH, inject_Z_plus. unfold kq. ring.
+Qed.
+
+Theorem network_forward g T i k :
+  valid_net T g -> (i < T)%nat -> In k (jds g) -> (0 < knth i k)%Z -> col_sum g i <> 0%Z ->
+  dgetq (spec_forward_i (jdd_from_network g) i) (kdec i k)
+  == inject_Z (knth i (kdec i k) + 1) * nq (vcount g (kinc i (kdec i k))) / inject_Z (col_sum g i).
+Proof.
+  intros HV Hi Hk Hpos Hcs.
+  assert (Hnd : NoDup (dkeys (jdd_from_network g))) by (apply dacc_NoDup; constructor).
+  assert (HkP : In k (dkeys (jdd_from_network g))).
+  { unfold jdd_from_network. apply dacc_keys. right. rewrite map_map. cbn [fst]. rewrite map_id. exact Hk. }
+  rewrite (forward_formula _ i k Hnd HkP Hpos).
+  rewrite (dict_close_0_get _ _ k (jdd_from_network_spec g)).
+  unfold spec_jdd. rewrite dgetq_map_fun.
+  assert (Hm : kmem k (kdedup (jds g)) = true) by (apply kmem_In, kdedup_In; exact Hk). rewrite Hm.
+  rewrite mean_spec_wsum. unfold jdd_from_network. rewrite dacc_wsum. unfold wsum at 1. cbn [map qsum].
+  rewrite wsum_const_list. fold (col_sum g i).
+  assert (HL : (i < length k)%nat) by (apply knth_pos_lt; exact Hpos).
+  rewrite kinc_kdec, knth_kdec by exact HL. replace (knth i k - 1 + 1)%Z with (knth i k) by lia.
+  unfold kq. field. split.
+  - intros E. apply Hcs. unfold Qeq in E. cbn in E. lia.
+  - apply nq_pos. destruct (jds g); [destruct Hk|cbn; lia].
+Qed.
+
+(* the network identity, pointwise: for a clean annotated network the row sum of the C13 matrix of
+   topology (i, t) at an excess tuple a = k - e_i equals the excess distribution computed from the
+   empirical joint degree distribution *)
+Theorem network_identity g T i t c cnt k :
+  valid_net T g -> (i < T)%nat -> clean_for g i t c -> col_sum g i <> 0%Z ->
+  In k (jds g) -> (0 < knth i k)%Z ->
+  rowsum T (get_ejk g (count_edge_types cnt (edges g)) i t) (kdec i k)
+  == dgetq (spec_forward_i (jdd_from_network g) i) (kdec i k).
+Proof.
+  intros HV Hi HC Hcs Hk Hpos.
+  assert (Hlen : length (kdec i k) = T).
+  { rewrite kdec_length. destruct HV as [H _]. rewrite Forall_forall in H. apply H. exact Hk. }
+  rewrite (network_rowsum g T HV i t Hi c HC cnt (kdec i k) Hlen Hcs).
+  rewrite (network_forward g T i k HV Hi Hk Hpos Hcs). reflexivity.
+Qed.
+
+(* clean_for as a boolean (what the checker tests) *)
+Lemma clean_forb_spec g i t c : clean_forb g i t c = true <-> clean_for g i t (Z.of_nat c).
+Proof.
+  unfold clean_forb, clean_for. rewrite andb_true_iff, negb_true_iff, Nat.eqb_neq, forallb_forall. split.
+  - intros [A B]. split; [lia|]. intros v Hv. apply Z.eqb_eq. apply B. apply in_seq. lia.
+  - intros [A B]. split; [lia|]. intros v Hv. apply in_seq in Hv. apply Z.eqb_eq. apply B. lia.
+Qed.
+
+Fixpoint net_ok (eps : Q) (g : net) (its : list (nat * nat)) (cs : list nat)
+         (rows : matrices) (fwd : list dict) : Prop :=
+  match its, cs, rows, fwd with
+  | [], [], [], [] => True
+  | (i, name) :: its', c :: cs', (name', r) :: rows', f :: fwd' =>
+      name = name' /\ clean_for g i name (Z.of_nat c) /\ col_sum g i <> 0%Z /\
+      dict_close eps r (spec_network_i g i) /\ dict_close eps f (spec_network_i g i) /\
+      net_ok eps g its' cs' rows' fwd'
+  | _, _, _, _ => False
+  end.
+
+Lemma check_net_spec eps g its : forall cs rows fwd,
+  check_net eps g its cs rows fwd = true <-> net_ok eps g its cs rows fwd.
+Proof.
+  induction its as [|[i name] its IH]; intros [|c cs] [|[name' r] rows] [|f fwd]; cbn [check_net net_ok];
+    try (split; [discriminate|intros []]); try (split; [reflexivity|constructor]).
+  rewrite !andb_true_iff, Nat.eqb_eq, clean_forb_spec, negb_true_iff, Z.eqb_neq, !dict_closeb_spec, IH. tauto.
+Qed.
+
+Definition C14_network_spec (eps : Q) (g : net) (names cs : list nat) (rows : matrices) (fwd : list dict) : Prop :=
+  valid_net (length names) g /\ NoDup names /\ jds g <> [] /\
+  Forall (fun k => Forall (fun x => (0 <= x)%Z) k) (jds g) /\
+  net_ok eps g (enum_from 0 names) cs rows fwd.
+
+Theorem check_networkb_iff eps g names cs rows fwd :
+  check_networkb eps g names cs rows fwd = true <-> C14_network_spec eps g names cs rows fwd.
+Proof.
+  unfold check_networkb, C14_network_spec.
+  rewrite !andb_true_iff, valid_netb_spec, nnodupb_spec, negb_true_iff, Nat.eqb_neq, check_net_spec, forallb_forall, Forall_forall.
+  assert (H1 : length (jds g) <> 0%nat <-> jds g <> []) by (destruct (jds g); cbn; split; congruence).
+  assert (H2 : (forall x, In x (jds g) -> forallb (Z.leb 0) x = true) <-> (forall x, In x (jds g) -> Forall (fun z => (0 <= z)%Z) x)).
+  { split; intros H x Hx; specialize (H x Hx).
+    - apply Forall_forall. intros z Hz. rewrite forallb_forall in H. apply Z.leb_le, H, Hz.
+    - apply forallb_forall. intros z Hz. rewrite Forall_forall in H. apply Z.leb_le, H, Hz. }
+  rewrite H1, H2. tauto.
+Qed.
